@@ -165,6 +165,15 @@ func (r *RootAssertionNode) computeDeclaringIdent(obj types.Object) *ast.Ident {
 	return fakeIdent
 }
 
+// sourceCall returns the call of the source code that the given call expression stands for: the call itself,
+// unless it was rebuilt from an assertion node.
+func (r *RootAssertionNode) sourceCall(call *ast.CallExpr) *ast.CallExpr {
+	if source, ok := r.functionContext.sourceCalls[call]; ok {
+		return source
+	}
+	return call
+}
+
 // ObjectOf is the same as [types.Info.ObjectOf], but if an identifier cannot be looked up (e.g.,
 // it is an artificial identifier we created to aid the analysis), we look up the internal backup
 // map instead. ObjectOf returns nil if and only if both attempts fail.
